@@ -193,7 +193,27 @@ class Gen:
             self.hit("var-decl")
             # circomspect rejects reads of never-assigned locals, so uninitialised declarations are kept rare
             if r.chance(9, 10) or name in scope.all_vars():
-                out = ["var", name, "="] + self.expr(scope, 0, self.kind == "template" and r.chance(1, 4)) + [";"]
+                out = ["var", name, "="] + self.expr(scope, 0, self.kind == "template" and r.chance(1, 4))
+                if r.chance(1, 6):
+                    # one declaration statement with several symbols: `var a = e1, b = e2;` (an initialization block of
+                    # declarations and substitutions that must keep their source order)
+                    self.hit("var-decl-multi")
+                    scope.vars.append(name)
+                    used = {name}
+                    for _ in range(1 + r.below(2)):
+                        name2 = self.fresh("v", scope)
+                        if name2 in used:
+                            # the same name twice in one declaration is rejected by the compiler (and the two symbols would share one
+                            # source range, the identity of a declaration in the C10 resolver)
+                            self.counter += 1
+                            name2 = "v%d" % self.counter
+                        used.add(name2)
+                        out += [",", name2]
+                        if r.chance(3, 4):
+                            out += ["="] + self.expr(scope, 0, False)
+                        scope.vars.append(name2)
+                    return out + [";"]
+                out += [";"]
             else:
                 self.hit("var-decl-noinit")
                 out = ["var", name, ";"]
